@@ -56,9 +56,9 @@ fn alphabet(plan: &str, v: &str, _t: Tier) -> Alphabet {
     // a page per object (PageProtect) / nothing ever reclaimed (NoGC): smaller bursts
     let burst = if plan == "PageProtect" || plan == "NoGC" { (264, 24, 2) } else { (264, 150, 2) };
     if v.starts_with("imm") {
-        return Alphabet { sizes: vec![48], sems: vec![Sem::Default, Sem::Immortal], gc_kinds: vec![false, true], bursts: vec![burst], align_bursts: false, eph_chains: vec![], two_mutators: false, pins: false, cross_writes: false, fields: if v == "immnw" { 0 } else { 1 } };
+        return Alphabet { sizes: vec![48], sems: vec![Sem::Default, Sem::Immortal], gc_kinds: vec![false, true], bursts: vec![burst], refused_allocs: false, align_bursts: false, eph_chains: vec![], two_mutators: false, pins: false, cross_writes: false, fields: if v == "immnw" { 0 } else { 1 } };
     }
-    Alphabet { sizes: vec![40, 264, 81920], sems: vec![Sem::Default], gc_kinds: vec![false, true], bursts: vec![burst], align_bursts: false, eph_chains: vec![], two_mutators: false, pins: false, cross_writes: false, fields: 1 }
+    Alphabet { sizes: vec![40, 264, 81920], sems: vec![Sem::Default], gc_kinds: vec![false, true], bursts: vec![burst], refused_allocs: false, align_bursts: false, eph_chains: vec![], two_mutators: false, pins: false, cross_writes: false, fields: 1 }
 }
 
 fn depth(plan: &str, v: &str, t: Tier) -> usize {
